@@ -25,6 +25,22 @@ class PathAbort(BaseException):
     """Raised to abandon a path (infeasible)."""
 
 
+def bounded_check(solver, timeout_ms):
+    """solver.check() with a hard wall-clock bound: z3's own `timeout` parameter is not honoured by every tactic
+    solver, so a watchdog thread interrupts the context (z3 releases the GIL during check) and the answer is `unknown`."""
+    import threading
+
+    timer = threading.Timer(timeout_ms / 1000.0 * 1.5 + 3.0, solver.ctx.interrupt)
+    timer.daemon = True
+    timer.start()
+    try:
+        return solver.check()
+    except z3.Z3Exception:
+        return z3.unknown
+    finally:
+        timer.cancel()
+
+
 def zr(x):
     """Python number -> z3 Real/Int value; z3 expr unchanged."""
     if isinstance(x, (SV,)):
@@ -676,7 +692,7 @@ class Explorer:
             s.add(*self.pc)
             s.add(*extra)
             t = time.time()
-            r = str(s.check())
+            r = str(bounded_check(s, self.timeout_ms))
             self.solver_s += time.time() - t
             self.queries += 1
             if r != "unknown":
